@@ -8,7 +8,7 @@ from .dm14net import Dm14Net, le_values, key_algo, C_ADDR, S_ADDR, PF_DM16, PF_D
 
 ID = 'C18'
 LEVEL = 'exploration'
-BUDGET = {'quick': (20000, 80.0), 'thorough': (250000, 1500.0)}
+BUDGET = {'quick': (12000, 80.0), 'thorough': (250000, 1500.0)}
 CHUNK = 20
 RULE = ('same client/server topology as C17; generated histories of up to 6 operations on the same objects mixing successes with: wrong key (client algorithm differs '
         'from the server\'s; boundary seeds 0x0001/0xFFFE/0x8000 and arbitrary ones), refusal at the proceed callback, refusal at respond(False, error, edcp 6/7) with '
